@@ -311,6 +311,12 @@ def run(index, rep, tier):
         rep.rule("R08.9", "the by-label variants find exactly the taxa carrying the labels: label lookup folds the query and the cached label with one method and the cache follows relabelling (C10 R10.9)")
         rep.floor("R08.9", "borrowed obligations", 5, borrow(index, rep, "C10", {"R10.9"}, "R08.9"))
 
+    # ---- R08.10 the selection may be any iterable
+    with rep.section("R08.10"):
+        rep.rule("R08.10", "the selection may be any iterable: the prune / retain / extract family walks its `taxa` / `labels` argument at most once, or materialises it first (a generator must select the same taxa as the list of its items)")
+        fam = [f for f in index.functions_in_module(TREE.rsplit(".", 1)[0]) if f.cls is not None and f.cls.name == "Tree" and (f.name.startswith(("prune_taxa", "retain_taxa", "extract_tree_with", "prune_leaves", "prune_nodes")))]
+        rep.floor("R08.10", "selection arguments of the prune / retain / extract family", 8, one_pass_iterable_rule(index, rep, "R08.10", fam, ("taxa", "labels", "nodes")))
+
 
 def _bool_leaves(t):
     if isinstance(t, ast.BoolOp):
